@@ -631,6 +631,12 @@ def is_nonempty_test(t, pol, buf):
     return False
 
 
+BATCH_ORDER_SAFE = {"push", "clear", "par_iter", "iter", "len", "is_empty", "as_slice", "capacity", "reserve", "shrink_to_fit",
+                    "into_par_iter", "into_iter", "par_chunks", "chunks", "first", "last", "get", "deref", "as_ref", "borrow",
+                    "reserve_exact", "truncate", "drain", "pop", "remove", "swap_remove"}
+# (truncate/drain/pop/remove/swap_remove are judged by the flush-before-clear path rule below, not here)
+
+
 def rule_flush_pairing(ctx, rule, fv, who):
     """A8: push -> flush before clear; tail flush guarded only by non-emptiness of the buffer."""
     lid, name = buffer_local(fv)
@@ -645,6 +651,28 @@ def rule_flush_pairing(ctx, rule, fv, who):
     if loop is None:
         ctx.fail(rule, "%s:loop" % who, "sequential record loop not found", fv.fn["sp"])
         return
+    # the batch keeps arrival order: nothing reorders or removes elements between push and the ordered write
+    bad_use = None
+    n_use = 0
+    for n in fv.nodes:
+        if n.get("k") == "mcall":
+            r = n["recv"]
+            while r.get("k") in ("addr", "un") and r.get("e") is not None:
+                r = r["e"]
+            if r.get("k") == "local" and r.get("id") == lid:
+                n_use += 1
+                if cname(n).split("::")[-1] not in BATCH_ORDER_SAFE:
+                    bad_use = bad_use or n
+        elif n.get("k") == "addr" and n.get("mut") and n["e"].get("k") == "local" and n["e"].get("id") == lid:
+            par = fv.parent.get(id(n))
+            if par is not None and par.get("k") in ("call",) or (par is not None and par.get("k") == "mcall" and par.get("recv") is not n):
+                bad_use = bad_use or n
+    ctx.check(rule, "%s:batch_order" % who, bad_use is None and n_use >= 2,
+              "the %d uses of the batch buffer are order-preserving (%s)" % (n_use, ", ".join(sorted(BATCH_ORDER_SAFE)[:6]) + ", …"),
+              "the pending batch is touched by `%s`, which can reorder or drop records between arrival and the ordered "
+              "write: output rows would no longer be in input order (or attributed to the wrong record)"
+              % (cname(bad_use) if bad_use is not None and bad_use.get("k") == "mcall" else "a `&mut` hand-off"),
+              line_of(bad_use) if bad_use is not None else None)
     flushes = flush_sites(fv, buf)
     in_loop = [f for f in flushes if any(a is loop for a in fv.ancestors(f))]
     tail = [f for f in flushes if f not in in_loop]
